@@ -78,7 +78,7 @@ def replay_history(case):
         return dict(ok=True, trivial=True)
     root = tempfile.mkdtemp(prefix='c07-', dir=tlc.WORK_ROOT)
     try:
-        def run_once():
+        def run_once(fail_in=None):
             ex = [0] * (K + 1)
 
             def src():
@@ -89,12 +89,33 @@ def replay_history(case):
             def seg(j):
                 def f(row):
                     ex[j] += 1
+                    if fail_in == j and ex[j] == 3:
+                        raise RuntimeError('segment %d fails at its third row' % j)
                     row['a'] = row['a'] * 2 + j
                 return f
-            links = [src()]
+
+            def failing_src():
+                for i in range(4):
+                    ex[0] += 1
+                    if i == 2:
+                        raise RuntimeError('the source fails at its third row')
+                    yield dict(a=i, b='s%d' % i)
+            links = [src() if fail_in != 0 else failing_src()]
             for j in range(1, K + 1):
                 links.append(checkpoint('cp%d' % j, checkpoint_path=root))
                 links.append(seg(j))
+            if fail_in is not None:
+                import gc
+                try:
+                    with contextlib.redirect_stdout(io.StringIO()), contextlib.redirect_stderr(io.StringIO()):
+                        Flow(*links).results()
+                except Exception:
+                    pass
+                else:
+                    return 'a run whose segment %d raises returned normally' % fail_in, None
+                del links
+                gc.collect()        # the abandoned generators of the failed run are finalised now, as at interpreter exit
+                return None, None
             with contextlib.redirect_stdout(io.StringIO()):
                 res, dp, _ = Flow(*links).results()
             return canon(dict(rows=res, resources=[dict(name=r['name'], schema=r['schema']) for r in dp.descriptor['resources']])), [e > 0 for e in ex]
@@ -103,6 +124,11 @@ def replay_history(case):
         for h in hist:
             if h[0] == 'del':
                 shutil.rmtree(os.path.join(root, 'cp%d' % h[1]))
+                continue
+            if h[0] == 'fail':
+                why, _ = run_once(fail_in=h[1])
+                if why:
+                    return dict(ok=False, why=why)
                 continue
             result, executed = run_once()
             if first is None:
